@@ -165,7 +165,7 @@ impl Watcher {
     }
 }
 
-fn body(c: &Case) -> Result<(), String> {
+pub fn body(c: &Case) -> Result<(), String> {
     let (tx, rx) = ipc::channel::<Msg>().map_err(|e| e.to_string())?;
     if c.preceding {
         tx.send(mk(ID_PRE, 1, false)).map_err(|e| e.to_string())?;
@@ -350,7 +350,7 @@ fn body(c: &Case) -> Result<(), String> {
     Ok(())
 }
 
-fn cfg_of(_: &Case) -> Cfg {
+pub fn cfg_of(_: &Case) -> Cfg {
     Cfg { sched: true, fake_sndbuf: Some(4608), ..Default::default() }
 }
 
